@@ -490,4 +490,8 @@ def run(ctx: Ctx, tier: str) -> Result:
            "it before the (concurrent) sender sees it")
     borrow(ctx, res, tier, "c15", ("C15.THREAD",), "C06.COMPLETE", "a deferred snapshot is completed by its own thread's events (the queue of pending work is per thread)")
     borrow(ctx, res, tier, "c05", ("C05.STR",), "C06.TOTAL", "cutting a text to the limit cannot fail (a slice of the text, no re-encoding that may split a character)")
+    borrow(ctx, res, tier, "c07", ("C07.MERGE",), "C06.COMPLETE", "what a snapshot's log fields recorded is part of that snapshot: their table entries are merged in whenever their ids were "
+           "handed out (a later capture of the same object refers to them)")
+    borrow(ctx, res, tier, "c15", ("C15.ONCE",), "C06.COMPLETE", "every deferred snapshot of an event is completed: the callbacks of one closing event are all run")
+    borrow(ctx, res, tier, "c05", ("C05.BUDGET",), "C06.TOTAL", "the search goes on after a value that was already recorded: only the budget ends it")
     return res
